@@ -34,11 +34,11 @@ Lemma opt_id {A} (o : option A) : match o with Some x => Some x | None => None e
 Proof. destruct o; reflexivity. Qed.
 
 Lemma find_child_el sc nm name attrs ch :
-  find_child nm (el sc name attrs (lines ch)) = ffind (has_tag_name nm) ch.
+  find_child nm (el sc name attrs (lines ch)) = ffind (is_tag nm) ch.
 Proof. unfold find_child, el. cbn [children]. apply find_lines. reflexivity. Qed.
 Lemma find_child_typed_el sc nm t name attrs ch :
   find_child_typed nm t (el sc name attrs (lines ch)) =
-  ffind (fun c => has_tag_name nm c && attr_is TYPE t c) ch.
+  ffind (fun c => is_tag nm c && attr_is TYPE t c) ch.
 Proof. unfold find_child_typed, el. cbn [children]. apply find_lines. reflexivity. Qed.
 
 (** evaluate the tests on concrete tag names *)
@@ -71,6 +71,20 @@ Section Leaf.
 Variable sc : list xnsdecl.
 Variables pf64 pf32 : xstr -> option N.
 
+(** the text of a leaf element of the trees *)
+Lemma elem_text_leaf name attrs t : elem_text (el sc name attrs [XText t]) = Some t.
+Proof. unfold elem_text, el. cbn [children existsb is_text_node orb cat_texts]. rewrite app_nil_r. reflexivity. Qed.
+Lemma opt_text_leaf d name attrs t : opt_text d (el sc name attrs [XText t]) = t.
+Proof. unfold opt_text. rewrite elem_text_leaf. reflexivity. Qed.
+Lemma opt_text_string d n s : opt_text d (t_string sc n s) = s.
+Proof. apply opt_text_leaf. Qed.
+Lemma opt_text_float d n f : opt_text d (t_float sc n f) = f64_text f.
+Proof. apply opt_text_leaf. Qed.
+Lemma opt_text_int d n z : opt_text d (t_int sc n z) = dec_z z.
+Proof. apply opt_text_leaf. Qed.
+Lemma opt_text_uint d n z : opt_text d (t_uint sc n z) = dec_n z.
+Proof. apply opt_text_leaf. Qed.
+
 Lemma f64_parsed_ok f : fo64 pf64 f = true -> f64_parsed pf64 (f64_text f) = Some f.
 Proof.
   unfold fo64, f64_parsed. destruct (pf64 (f64_text f)) as [b|]; [|discriminate].
@@ -91,7 +105,11 @@ Proof. unfold in_u32. intros H. apply N.ltb_lt in H. exact H. Qed.
 
 Lemma opt_string_of n nm nm' o :
   find_child nm n = option_map (t_string sc nm') o -> opt_string n nm = Ok o.
-Proof. intros E. unfold opt_string, opt_bind. rewrite E. destruct o; reflexivity. Qed.
+Proof.
+  intros E. unfold opt_string, opt_bind. rewrite E. destruct o as [s|]; [|reflexivity].
+  cbn [option_map opt_case]. change (check_type _ (t_string sc nm' s)) with (@Ok unit tt). cbn [res_bind].
+  rewrite opt_text_string. reflexivity.
+Qed.
 
 Lemma req_string_of n nm nm' s :
   find_child nm n = Some (t_string sc nm' s) -> req_string n nm = Ok s.
@@ -103,7 +121,7 @@ Proof.
   intros E H. unfold opt_f64, opt_num, opt_bind. rewrite E. destruct o as [f|]; [|reflexivity].
   cbn [ofo] in H. cbn [option_map opt_case].
   change (check_type _ (t_float sc nm' f)) with (@Ok unit tt). cbn [res_bind].
-  change (opt_text ZERO_TEXT (t_float sc nm' f)) with (f64_text f).
+  rewrite opt_text_float.
   rewrite (f64_parsed_ok f H). reflexivity.
 Qed.
 
@@ -117,7 +135,7 @@ Proof.
   intros E H. unfold opt_int, opt_num, opt_bind. rewrite E. destruct o as [z|]; [|reflexivity].
   cbn [ofo] in H. cbn [option_map opt_case].
   change (check_type _ (t_int sc nm' z)) with (@Ok unit tt). cbn [res_bind].
-  change (opt_text ZERO_TEXT (t_int sc nm' z)) with (dec_z z).
+  rewrite opt_text_int.
   rewrite (parse_i64_dec_z z (in_i64_spec z H)). reflexivity.
 Qed.
 
@@ -130,7 +148,7 @@ Lemma req_u32_of n nm nm' w :
 Proof.
   intros E H. unfold req_int, opt_int, opt_num, opt_bind. rewrite E. cbn [opt_case].
   change (check_type _ (t_uint sc nm' w)) with (@Ok unit tt). cbn [res_bind].
-  change (opt_text ZERO_TEXT (t_uint sc nm' w)) with (dec_n w).
+  rewrite opt_text_uint.
   rewrite (parse_u32_dec_n w (in_u32_spec w H)). reflexivity.
 Qed.
 
@@ -141,7 +159,7 @@ Proof.
   intros H. unfold dt_fo in H. unfold date_time_from_node, req_node, t_date_time, t_struct.
   rewrite !find_child_typed_el.
   repeat (rewrite ffind_cons by reflexivity). eval_ifs. cbn [opt_case].
-  change (node_text (t_float sc _ (dt_gps_time d))) with (Some (f64_text (dt_gps_time d))).
+  unfold t_float at 1. rewrite elem_text_leaf.
   cbv beta iota. rewrite (f64_parsed_ok _ H). cbn [invalid_err res_bind opt_case].
   destruct d as [g a]. cbn [dt_gps_time dt_atomic]. destruct a; reflexivity.
 Qed.
